@@ -107,9 +107,12 @@ def internal_server_error(req, *_):
     """
     handler = {"module": None, "name": None, "args": None}
     if req.uri_handler:
-        handler["module"] = req.uri_handler.__module__
-        handler["name"] = req.uri_handler.__name__
-        handler["args"] = ', '.join(req.uri_handler.__code__.co_varnames)
+        # handler could be any callable (functools.partial, object instance)
+        handler["module"] = getattr(req.uri_handler, '__module__', None)
+        handler["name"] = getattr(req.uri_handler, '__name__',
+                                  type(req.uri_handler).__name__)
+        code = getattr(req.uri_handler, '__code__', None)
+        handler["args"] = ', '.join(code.co_varnames) if code else None
 
     log.exception("Handler `%s.%s(%s)' for %s [%s]",
                   handler["module"], handler["name"], handler["args"],
